@@ -82,14 +82,14 @@ type Theory interface {
 
 type IntTheory struct{}
 
-func (IntTheory) Mode() string       { return "int" }
-func (IntTheory) Sort(m MT) Sort     { return sortInt }
-func (IntTheory) SpecSort() Sort     { return sortInt }
+func (IntTheory) Mode() string         { return "int" }
+func (IntTheory) Sort(m MT) Sort       { return sortInt }
+func (IntTheory) SpecSort() Sort       { return sortInt }
 func (IntTheory) SpecLit(v *big.Int) T { return intT(v) }
-func (IntTheory) ToSpec(a T, m MT) T { return a }
-func (IntTheory) SpecAdd(a, b T) T   { return mkAdd(a, b) }
-func (IntTheory) SpecSub(a, b T) T   { return mkSub(a, b) }
-func (IntTheory) SpecMul(a, b T) T   { return mkMul(a, b) }
+func (IntTheory) ToSpec(a T, m MT) T   { return a }
+func (IntTheory) SpecAdd(a, b T) T     { return mkAdd(a, b) }
+func (IntTheory) SpecSub(a, b T) T     { return mkSub(a, b) }
+func (IntTheory) SpecMul(a, b T) T     { return mkMul(a, b) }
 func (IntTheory) SpecCmp(op string, a, b T) T {
 	return mkCmp(op, a, b)
 }
